@@ -466,6 +466,23 @@ class Interp(Engine):
         else:
             self.exec_block(s.orelse)
 
+    def st_FunctionDef(self, s):
+        """nested function: a closure over the enclosing activation (free variables are read from the enclosing
+        frame at call time while that frame is active - Python's by-reference capture -, else from the snapshot
+        taken here); defaults are evaluated now"""
+        a = s.args
+        if a.vararg or a.kwarg or a.kwonlyargs or s.decorator_list:
+            raise Unsupported("nested function with *args/**kwargs/keyword-only parameters or decorators")
+        for sub in ast.walk(s):
+            if isinstance(sub, (ast.Nonlocal, ast.Global, ast.Yield, ast.YieldFrom, ast.Await)):
+                raise Unsupported("nested function with nonlocal/global/yield")
+        names = [p.arg for p in a.args]
+        defaults = {}
+        for p, d in zip(names[len(names) - len(a.defaults):], a.defaults):
+            defaults[p] = self.ev(d)
+        self.st.vars[s.name] = Fun("lambda", node=s, closure=dict(self.st.vars), module=self.module, defaults=defaults,
+                                   def_fi=self.cur_fi, def_depth=len(self.inline_stack))
+
     def may_catch(self, exc):
         """True if an exception of class `exc` raised now would be handled (try or contract)."""
         for caught in self.try_stack:
